@@ -192,15 +192,25 @@ def broken_tasks(tier):
         for p in plans:
             for fmt in ('text', 'json'):
                 out.append((arch, p, fmt))
+            if arch != 'G':
+                out.append((arch, p, 'text-T'))      # the same target as the only line of a -T file
     return out
 
 
 def work_broken(chunk, st):
     for arch, plan, fmt in chunk:
-        sc = F.scenario(arch, True, extra_opts=(['-j'] if fmt == 'json' else []))
+        via_T = fmt == 'text-T'
+        sc = F.scenario(arch, True, extra_opts=(['-j'] if fmt == 'json' else []), via_targets_file=via_T)
         res = explore.run_plan(sc, plan)
         fk = plan[0][1][0]
         st.execution(res.world, outcome=('broken', arch, res.status, fk), root=('broken', arch, plan, fmt), nontrivial=('broken', arch, plan, fmt))
+        if via_T:
+            fmt = 'text'
+        if fmt == 'text' and not (res.hang or res.exc):
+            # a complete-looking report after a handshake whose bytes were not a well-formed handshake is not an obtained-and-parsed list
+            for sig, what in F.judge_c09(res, arch, plan):
+                if sig.startswith(('report-after-malformed-handshake', 'fooled')):
+                    st.violation('broken:%s:%s' % ('multi-target-path' if via_T else 'text', sig.split(':')[0]), {'arch': arch, 'plan': plan, 'status': res.status, 'what': what})
         if res.hang or res.exc:
             st.violation('broken:%s:hang-or-exception' % arch, {'arch': arch, 'plan': plan, 'fmt': fmt, 'hang': res.hang, 'exc': res.exc})
             continue
